@@ -8,7 +8,7 @@ from .. import linexpr as lx
 from ..core import AnalysisError, Report
 from ..linexpr import Env, py_ir, to_lin
 from ..pycfg import build_py_cfg, run_typestate
-from ..pyfacts import Repo, calls, dotted, norm, raise_guards, raised_class, walk_no_nested
+from ..pyfacts import Repo, eval_int_expr, calls, dotted, norm, raise_guards, raised_class, walk_no_nested
 
 ASM = 'flipjump/assembler/assembler.py'
 PRE = 'flipjump/assembler/preprocessor.py'
@@ -93,6 +93,24 @@ def rule_addr_model(rep: Report, repo: Repo) -> None:
               f'FlipJump -> {fjc}; WordFlip -> {wfc} (exactly one inline op each, see C02.WFLIP-ONCE)', f'{ASM}:{lr.lineno}')
     # Padding
     al = repo.func(PRE, 'PreprocessorData.align_current_address')
+    # the pad amount is the least n >= 0 with (k + n) a multiple of the alignment, k = current op index: the assigned expression is
+    # folded for k = 0..47 and every alignment 1..17 (not only powers of two) at two widths
+    pad_expr = [st.value for st in al.body if isinstance(st, ast.Assign) and norm(st.targets[0]) == 'ops_to_pad']
+    wrong = []
+    if len(pad_expr) == 1:
+        for wv in (8, 64):
+            for k in range(48):
+                for a in range(1, 18):
+                    try:
+                        got = eval_int_expr(pad_expr[0], {'self.curr_address': k * 2 * wv, 'op_size': 2 * wv, 'ops_alignment': a,
+                                                         'self.memory_width': wv})
+                    except AnalysisError:
+                        raise
+                    if got != (-k) % a:
+                        wrong.append(f'w={wv} op index {k}, pad {a}: {got} (want {(-k) % a})')
+    rep.check(len(pad_expr) == 1 and not wrong, 'C02.ADDR-MODEL', 'Padding:amount', f'{norm(pad_expr[0]) if pad_expr else None}: '
+              + (f'{len(wrong)} wrong, e.g. {wrong[0]}' if wrong else '1632 (index, alignment, width) cases agree'), f'{PRE}:{al.lineno}',
+              expected='(-k) mod alignment for every alignment >= 1')
     env_al = Env({'self.memory_width': W, 'op_size': py_ir(ast.parse('2 * self.memory_width', mode='eval').body)})
     pre_pad = [lx.lin_show(to_lin(py_ir(v), env_al)) for op, v in _self_updates(al, 'curr_address') if op == '+=']
     pad_arg = [norm(c.args[0]) for c in calls(al) if dotted(c.func) == 'Padding']
